@@ -728,6 +728,19 @@ func c10closes(p *Program, r *Report, rule string) {
 
 func runC10(p *Program, r *Report) {
 	c10closes(p, r, "C10.closes")
+	// after a message was read to its end, its handle no longer waits on anything under that message's context (F37)
+	cReaderHandle(p, r, "C10.rhandle")
+	if fn := p.Func("Conn.reader"); fn != nil {
+		p.forAllPaths(r, "C10.rhandle", fn, "a handle per call", Opts{}, "Conn.reader returns a value created by this call (carrying its own end-of-message mark), not the connection's shared msgReader", func(pa *Path) (bool, string) {
+			if pa.End != "return" || retErr(pa) != "nil" {
+				return true, ""
+			}
+			if k := stripConvAll(pa.Ret[1]).Key(); k == "Conn.msgReader" {
+				return false, "returns the shared Conn.msgReader"
+			}
+			return true, ""
+		})
+	}
 	armingRules(p, r, false, true)
 	armingRules(p, r, true, false)
 	c10senders(p, r, "C10.senders")
